@@ -82,10 +82,10 @@ theorem storeInt_ok_bounds {t : IntTy} {range : List (Int × Int)} {hints : Nat}
         exact ⟨hb.1, hb.2, hv⟩
       · cases h
 
-theorem storeDec64_ok_bounds {fd : Nat} {range : List (Int × Int)} {hints : Nat} {s : Bytes} {v : Int}
-    (h : storeDec64 fd range hints s = .ok v) :
+theorem storeDec64_ok_bounds {nd : Bool} {fd : Nat} {range : List (Int × Int)} {hints : Nat} {s : Bytes} {v : Int}
+    (h : storeDec64With nd fd range hints s = .ok v) :
     -(2 ^ 63) ≤ v ∧ v ≤ 2 ^ 63 - 1 ∧ validateRange (rangeIsUnsigned "dec64") range v = true := by
-  unfold storeDec64 at h
+  unfold storeDec64With at h
   split at h
   · cases h
   · split at h
@@ -95,7 +95,7 @@ theorem storeDec64_ok_bounds {fd : Nat} {range : List (Int × Int)} {hints : Nat
       · rename_i hv
         injection h with h; subst h
         -- the scaled value went through `lyplg_type_parse_int` with the int64 bounds
-        unfold parseDec64 at hp
+        unfold parseDec64With at hp
         simp only at hp
         have hfin : ∀ sg ip frs, decFinal fd sg ip frs = .ok num → -(2 ^ 63) ≤ num ∧ num ≤ 2 ^ 63 - 1 := by
           intro sg ip frs hf
@@ -123,7 +123,9 @@ theorem storeDec64_ok_bounds {fd : Nat} {range : List (Int × Int)} {hints : Nat
         · split at hp
           · cases hp
           · split at hp
-            · exact ⟨(hbody _ _ hp).1, (hbody _ _ hp).2, hv⟩
+            · split at hp
+              · cases hp
+              · exact ⟨(hbody _ _ hp).1, (hbody _ _ hp).2, hv⟩
             · exact ⟨(hbody _ _ hp).1, (hbody _ _ hp).2, hv⟩
       · cases h
 
